@@ -96,6 +96,19 @@ def deep_copy(v):
 
 def call_numpy(it, name, mod, fn, args, kwargs, node, fr):
     from . import imgdom
+    if fn in ("array", "asarray", "stack") and args and isinstance(args[0], Seq):
+        r_ = imgdom.stack_from_seq(args[0])
+        if r_ is not None:
+            return r_
+    if fn == "sum" and args and isinstance(args[0], imgdom.CompStack):
+        ax_ = argn(args, kwargs, 1, "axis")
+        r_ = imgdom.stack_sum(args[0], pyval(ax_) if ax_ is not None and is_pyconst(ax_) else None)
+        if r_ is not None:
+            return r_
+    if fn == "tile" and len(args) == 2:
+        r_ = imgdom.stack_tile(args[0], args[1], None)
+        if r_ is not None:
+            return r_
     if mod == "numpy.fft" and args:
         if fn in ("fftshift", "ifftshift"):
             return imgdom.do_shift(it, fn, args[0], args, kwargs, node)
@@ -216,6 +229,14 @@ def call_numpy(it, name, mod, fn, args, kwargs, node, fr):
         p.sorted_by = v
         p.descending = False
         return p
+    if fn == "linspace":
+        r_ = imgdom.linspace(it, args, kwargs, node)
+        if r_ is not None:
+            return r_
+    if fn == "meshgrid":
+        r_ = imgdom.meshgrid(it, args, kwargs, node)
+        if r_ is not None:
+            return r_
     if fn == "arange":
         # an index vector: element j = start + j*step, j the generic index of an index space identified by its length
         if len(args) == 1:
@@ -863,6 +884,16 @@ def call_rotation_ctor(it, fn, args, kwargs, node):
 
 # ====================================================================================================== methods
 def call_method(it, recv, name, args, kwargs, node, fr):
+    from . import imgdom as _img
+    if isinstance(recv, _img.CompStack):
+        if name == "reshape":
+            shape = args[0] if len(args) == 1 and isinstance(args[0], Seq) else Seq(args, "tuple")
+            r_ = _img.stack_reshape(recv, shape)
+            if r_ is not None:
+                return r_
+        if name in ("copy", "astype"):
+            return recv
+        raise Unsupported(f"method .{name} on a stack of component grids", node)
     if isinstance(recv, Frame):
         return frame_method(it, recv, name, args, kwargs, node, fr)
     if isinstance(recv, Val):
